@@ -159,6 +159,29 @@ def check(case):
                      'got %s blackbody ratio %s (max rel %.2e)' % (spec[:3], lo[:3], maxrel(spec, lo)))
         if float(col.min()) < 10.0 * (1 - 1e-9) and not close(spec, lo, rtol=1e-8, atol=tiny):
             out.fail('isothermal-identity@%s,unsaturated' % kind, 'max rel %.2e' % maxrel(spec, lo))
+    # ---- the same model object evaluated on two windows of equal length, one after the
+    # other (what a retrieval does on the clipped grid): values at a wavenumber must not
+    # depend on which other wavenumbers were computed before or alongside
+    n = len(W.wn)
+    if n >= 8:
+        out.cls('window-sequence')
+        out.applies('window-sequence')
+        try:
+            for name, sel in (('A', slice(1, 3)), ('B', slice(n - 3, n - 1)), ('A', slice(1, 3))):
+                with np.errstate(all='ignore'):
+                    rw = cut(out, 'model@window', m.model, W.wn[sel].copy(), True)
+                gw = np.asarray(rw[0], dtype=float)
+                sw = np.asarray(rw[1], dtype=float)
+                idx = [int(np.argmin(np.abs(W.wn - x))) for x in gw]
+                if len(gw) == 0 or not np.array_equal(W.wn[idx], gw):
+                    out.fail('window-sequence@grid', 'window %s returned wavenumbers not on the native grid' % name)
+                    break
+                if not close(sw, spec[idx], rtol=1e-8 + slack, atol=tiny):
+                    out.fail('window-sequence@%s' % kind, 'window %s differs from the full-grid values (max rel %.2e)'
+                             % (name, maxrel(sw, spec[idx])))
+                    break
+        except CutError:
+            pass
     out.applies('hot-cold-bounds')
     if np.any(spec < lo * (1 - 1e-8 - slack) - tiny) or np.any(spec > hi * (1 + 1e-8 + slack) + tiny):
         k = int(np.argmax(np.maximum(lo - spec, spec - hi) / np.maximum(hi, tiny)))
